@@ -206,11 +206,8 @@ def main(chk):
     softmax_cases(chk, rng, 36 if q else 1500)
     gaussian_cases(chk, rng, 48 if q else 2000)
     greedy_cases(chk, rng, 20 if q else 800)
-    try:
-        import c13_loops
-        c13_loops.run(chk, rng, q)
-    except ImportError:
-        pass
+    import c13_loops
+    c13_loops.run(chk, rng, q)
     chk.sample({"note": "heads on single-layer networks with random weights (logit scale 0.01 / 1 / 30, log-variance scale 1 / 40), unbatched "
                         "observation and batch sizes 1-5, action dimensions 1-3; greedy on tables with ties"})
     return chk.finish(
@@ -218,4 +215,4 @@ def main(chk):
              "observations vs closed-form float64 references and vs the extracted model; standardised-noise invariance across two "
              "policies for one key; tabular greedy / epsilon-greedy (epsilon 0 and 1) and the network greedy policy",
         assumptions=["TFP distributions trusted as executed (their outputs are compared with closed forms)", "float32 tolerance 1e-4",
-                     "the exploration probability of the DQN-family loops is validated in the training-run part (c13_loops), not proved"])
+                     "the exploration rule of the DQN-family loops (roll < scheduled epsilon, or step < learning_starts) is the Coq dqn_choice compared step by step with the real loops on recorded rolls (harness/c13_loops.py); the distribution of the rolls is not checked"])
